@@ -195,6 +195,7 @@ def correspond(res):
 
     _real_stream(res, rng, viol, 1 if not thorough else 4)
     _copula_margins(res, rng, viol)
+    _copula_drift(res, rng, viol, groups, 10 if not thorough else 80)
 
     header = ("From Coq Require Import ZArith QArith Qabs List Bool.\nFrom RV Require Import Base.QB Model.Grid Gen.GenC01Trunc Gen.GenC04Triplet "
               "Model.Chain Model.Drift.\nOpen Scope Q_scope.")
@@ -325,6 +326,97 @@ def _copula_margins(res, rng, viol):
                 viol("compute_mu_h of a copula margin uses the cells of axes[0], not of its own axis",
                      kind="margin", finding="F-C04-1", axis0=[float(x) for x in ax0], axis1=[float(x) for x in ax1], margin=k,
                      got=float(got), want=float(want))
+
+
+def _copula_drift(res, rng, viol, groups, n_cases):
+    """MarkovChainLevyCopula.initialisation: the drift VECTOR of a copula chain whose margins have different
+    finite-variation flags / representations / (credit-like) different axes -- exact on step margins (F-C04-2)"""
+    from rpylib.process.markovchain.markovchainlevycopula import MarkovChainLevyCopula
+    from rpylib.distribution.sampling import SamplingMethod
+    from rpylib.distribution.samplingfactory import create_q_vector
+    from rpylib.grid.spatial import CTMCGrid
+    from rpylib.model.levycopulamodel import LevyCopulaModel
+    from rpylib.distribution.levycopula import IndependentComponentsCopula
+    from rpylib.model.levymodel.levymodel import TruncatedLevyMeasure
+    from stepmeasure import random_step_measure, random_dyadic_axis, step_spec, build_model
+    cases = []
+    for it in range(n_cases):
+        dim = rng.choice([2, 2, 3])
+        h = Fr(1, 2)
+        nl, nr = rng.randrange(2, 5), rng.randrange(2, 5)
+        same_axes = rng.random() < 0.6
+        axes = []
+        for k in range(dim):
+            axes.append(axes[0] if (same_axes and k) else random_dyadic_axis(rng, nl, nr, h, bits=2))   # same lengths / origin index
+        o = axes[0][1]
+        flags = [rng.random() < 0.5 for _ in range(dim)]
+        if it < 2:
+            flags = [True] + [False] * (dim - 1) if it == 0 else [False] + [True] * (dim - 1)      # mixed flags, both ways
+        specs, margins = [], []
+        for k in range(dim):
+            ax = axes[k][0]
+            nu = random_step_measure(rng, ax[0], ax[-1], bits=2, cover=True, max_pieces=4, zero_prob=0.0)
+            nu.finite_variation, nu.strict = flags[k], False
+            rep = rng.choice(["ZERO", "CENTER", "ONEONE", "TILDE"])
+            a = Fr(rng.randrange(-8, 9), 8)
+            specs.append(step_spec(nu, a=a, sigma=0, representation=rep))
+            margins.append((nu, rep, a))
+        ctx = dict(kind="copula-drift", margins=specs, axes=[[float(x) for x in ax[0]] for ax in axes], o=o, h=float(h))
+        try:
+            with warnings.catch_warnings():
+                warnings.simplefilter("ignore")
+                model = LevyCopulaModel([build_model(sp) for sp in specs], IndependentComponentsCopula())
+                grid = CTMCGrid(h=float(h), origin_coordinate=o, axes=[np.array([float(x) for x in ax[0]]) for ax in axes])
+                p = MarkovChainLevyCopula(levy_copula_model=model, grid=grid, method=SamplingMethod.INVERSION)
+                p.initialisation(_product())
+                drift = [float(v) for v in np.ravel(p.process_drift())]
+        except Exception as e:  # noqa
+            viol(f"initialising the copula chain raises {type(e).__name__}", reason=str(e)[:200], **ctx)
+            continue
+        res.count(("copula-drift", it, tuple(flags), dim, same_axes), kind=f"copula chain drift ({'mixed' if len(set(flags)) > 1 else 'equal'} flags)")
+        lits = []
+        for k, (nu, rep, a) in enumerate(margins):
+            ax = axes[k][0]
+            g1 = CTMCGrid(h=float(h), origin_coordinate=o, axes=[np.array([float(x) for x in ax])])
+            q = create_q_vector(TruncatedLevyMeasure(nu, (float(ax[0]), float(ax[-1]))), g1)
+            got = Fr(drift[k]) + sum(Fr(float(x)) * Fr(float(qq)) for x, qq in zip(ax, q))
+            want = mean_rate_q(nu, ax[0], ax[-1], rep, flags[k], a)
+            if got != want:
+                viol("copula chain: drift + rate-weighted states of a margin differs from the margin's mean (its own variation flag)",
+                     finding="F-C04-2", margin=k, flags=flags, got=float(got), want=float(want), **ctx)
+            lits.append(f"({nu.coq()}, {lst([qlit(float(x)) for x in ax])}, {natlit(o)}, {qlit(0)}, {zlit(REP_VAL[rep])}, {blit(flags[k])}, {qlit(a)})")
+        cases.append(f"({lst(lits)}, {lst([qlit(d) for d in drift])})")
+    groups.append(("copuladrift", "list (list (Q * Q * Q) * list Q * nat * Q * Z * bool * Q) * list Q",
+                   "fun c => qlist_eqb (copula_chain_drift (fst c)) (snd c)", cases))
+    # real margins with different flags (tolerance): HEM (finite variation) with CGMY y = 1.3 (infinite variation)
+    from rpylib.grid.spatial import CTMCUniformGrid
+    from stepmeasure import build_copula_model
+    specs = [{"family": "HEM", "kwargs": dict(sigma=0.1, p=0.6, eta1=25.0, eta2=40.0, intensity=5.0)},
+             {"family": "CGMY", "kwargs": dict(c=0.05, g=10.0, m=8.0, y=1.3)}]
+    for order in ((0, 1), (1, 0)):
+        sp = [specs[order[0]], specs[order[1]]]
+        ctx = dict(kind="copula-drift-real", models=sp, h=0.1)
+        try:
+            with warnings.catch_warnings():
+                warnings.simplefilter("ignore")
+                model = build_copula_model(sp, "clayton")
+                grid = CTMCUniformGrid(h=0.1, model=model)
+                p = MarkovChainLevyCopula(levy_copula_model=model, grid=grid, method=SamplingMethod.INVERSION)
+                p.initialisation(_product())
+                drift = [float(v) for v in np.ravel(p.process_drift())]
+                for k in (0, 1):
+                    m1 = build_model(sp[k])
+                    g1 = CTMCGrid(h=float(grid.h), origin_coordinate=grid.origin_coordinate.value[k], axes=[grid.axes[k].copy()])
+                    l, r = (float(t) for t in grid.truncations[k])
+                    q = create_q_vector(TruncatedLevyMeasure(m1.levy_triplet.nu, (l, r)), g1)
+                    got = drift[k] + float(np.dot(grid.axes[k], q)) - float(np.ravel(model.drift())[k])
+                    want = real_mean_rate(m1, l, r)
+                    res.count(("copula-drift-real", order, k), kind="copula chain drift, real margins with mixed flags")
+                    if abs(got - want) > 1e-7 * (1 + abs(want)):
+                        viol("copula chain: drift + rate-weighted states of a margin differs from the margin's mean (its own variation flag)",
+                             finding="F-C04-2", margin=k, got=got, want=want, **ctx)
+        except Exception as e:  # noqa
+            viol(f"initialising the copula chain raises {type(e).__name__}", reason=str(e)[:200], **ctx)
 
 
 def search(res):
